@@ -14,6 +14,7 @@ import (
 	"strings"
 	"sync"
 	"sync/atomic"
+	"time"
 
 	"github.com/tmpim/casket/casketfile"
 	"github.com/tmpim/casket/caskethttp/httpserver"
@@ -151,7 +152,20 @@ func c05RetryEval(f []string) (string, []string) {
 		proxy.VerifSetRobin(rr, uint32(robin))
 	}
 	p := proxy.Proxy{Next: httpserver.EmptyNext, Upstreams: []proxy.Upstream{up}}
-	status, _ := p.ServeHTTP(httptest.NewRecorder(), req)
+	// a loop that never gives up must not hang the check
+	done := make(chan int, 1)
+	go func() {
+		st, _ := p.ServeHTTP(httptest.NewRecorder(), req)
+		done <- st
+	}()
+	var status int
+	select {
+	case status = <-done:
+	case <-time.After(20 * time.Second):
+		mu.Lock()
+		defer mu.Unlock()
+		return "hung\t" + strings.Join(log, ","), []string{"hung"}
+	}
 	res := strconv.Itoa(status)
 	if status == 0 {
 		res = "ok"
